@@ -266,6 +266,7 @@ func isRootPointer(v ssa.Value) bool {
 
 func (x *Exec) loopTargets(fr *Frame, li *loopInfo) (map[string]*loopMod, bool) {
 	appendLikeArg = x.appendLikeArgOf
+	heapElemFields = x.heapElemFieldsOf
 	mods := map[string]*loopMod{}
 	get := func(key string, t types.Type) *loopMod {
 		m := mods[key]
